@@ -16,16 +16,16 @@ E = {
 }
 
 # id -> (engine, technique, level text, level note, design ref)
-E1_NOTE = "Trusts the from-scratch reference interpreter (Clean), the instrumented checkers and the task-side / checker-side logs; bounded to <= 8 tasks, <= 8 resources, <= 10 history steps per scenario; task programs are interpreted scripts over simulated resource families."
+E1_NOTE = "Trusts the from-scratch reference interpreter (Clean), the instrumented checkers and the task-side / checker-side logs; bounded to <= 8 tasks, <= 9 resources, <= 12 history steps per scenario (configurations *-xl: <= 14 tasks, <= 11 resources, <= 16 steps); task programs are interpreted scripts over simulated resource families."
 CHECKS = {
   "C01": ("e1", "deterministic simulation: seeded programs x worlds x histories against the real pie crate; outputs and resource contents of every returning session vs a from-scratch reference interpreter",
           "Seeded search over class-W task programs (dynamic require/read/write structure, all checker kinds, five task type families), initial worlds and histories of external changes and top-down sessions; after every returning session the outputs and the world are compared with a from-scratch build of the current state; validation of every reused task is checked through serial-numbered stamps. Evidence over sampled scenarios.", E1_NOTE, "5/C01"),
   "C02": ("e1", "deterministic simulation: every execution justified from the checker-side log (serial-numbered stamps), creation-order validation, idempotent repeat, subset-of-clean for exact checkers",
           "Same scenario space as C01; per session: at most one execution per task, every re-execution preceded by an inconsistent verdict on a dependency of the task's latest execution, dependencies validated in creation order with early stop, repeat sessions execute nothing, exact-checker programs execute a subset of the from-scratch build.", E1_NOTE, "5/C02"),
   "C03": ("e1", "deterministic simulation: completely reported bottom-up builds followed by probing every known task, vs from-scratch reference",
-          "Seeded histories of change batches reported completely to bottom-up builds (pure bottom-up, and mixed with all-roots top-down sessions); afterwards requiring every known task must execute nothing and return from-scratch outputs; every inconsistent verdict seen during the build must lead to an execution; cached reuse during the build only when nothing scheduled is reachable.", E1_NOTE, "5/C03"),
+          "Seeded histories of change batches reported completely to bottom-up builds (pure bottom-up, mixed with all-roots and with arbitrary top-down sessions, and sessions that require tasks top-down before the build, drop an unused build or run a second build inside one session); afterwards requiring every known task must execute nothing and return from-scratch outputs; every inconsistent verdict seen during the build must lead to an execution; cached reuse during the build only when nothing scheduled is reachable.", E1_NOTE, "5/C03"),
   "C04": ("e1", "deterministic simulation: bottom-up executions justified by inconsistent verdicts (checker-side log), at most once, dependency order",
-          "Same histories as C03; every execution of a previously completed task in a bottom-up build must follow an inconsistent/erroneous verdict on one of its own recorded dependencies; at most one execution per task; no task executes while a scheduled task it transitively requires still waits.", E1_NOTE, "5/C04"),
+          "Same histories as C03 (plus crash-injecting mixes, in which the rules apply to every task that was not itself left aborted); every execution of a previously completed task in a bottom-up build must follow an inconsistent/erroneous verdict on one of its own recorded dependencies; at most one execution per task; no task executes while a scheduled task it transitively requires still waits.", E1_NOTE, "5/C04"),
   "C10": ("e2", "deterministic simulation: seeded operation histories over the real DAG vs reference graph, invariants after every op",
           "Seeded search over DAG operation histories (incl. operations on removed nodes, re-insertions, cycle-closing edges) with rank-bijection / ascending-edge / exact-cycle-verdict / rollback invariants evaluated after every operation against a DFS reference. Evidence over the sampled histories, not proof.",
           "Trusts the naive reference graph; bounded to <= 12 live nodes and <= 120 operations per history; hash iteration order controlled through the guarded seeded-hasher seam.", "5/C10"),
@@ -39,7 +39,7 @@ CHECKS = {
   "C18": ("e1", "deterministic simulation with fault injection: seeded checker errors at validation time (k-th check of a session, or all checks of a resource), top-down and bottom-up",
           "Class-W scenarios with injected checker errors; the owner of the failing dependency must be re-executed or scheduled and never reused, each error must appear exactly once and in order in Session::dependency_check_errors, the build must not abort, and results must still equal the from-scratch build.", E1_NOTE, "5/C18"),
   "C19": ("e1", "deterministic simulation with crash injection: panics at arbitrary ticks (task ops, write closures, checker calls) and diagnosed violations, instance kept and used again; later sessions vs from-scratch reference",
-          "Class-W/X/V scenarios with injected crashes at seeded ticks inside sessions and with diagnosed violations; the instance is reused: every later top-down session must return from-scratch results, abort only for an existing violation or with a listed stale-edge signature, and never with an internal error.", E1_NOTE, "5/C19"),
+          "Class-W/X/V scenarios with injected crashes at seeded ticks inside sessions and with diagnosed violations; the instance is reused, in new sessions and (configurations *-samesession) in the very session whose build aborted, the abort being caught by the caller: every later top-down session must return from-scratch results, abort only for an existing violation or with a listed stale-edge signature, and never with an internal error.", E1_NOTE, "5/C19"),
   "C20": ("e1", "deterministic simulation: role-inverting program class V and well-formed class W; every diagnostic abort judged against a from-scratch build of all known tasks and against the recorded dependencies (stale-edge analysis)",
           "Class-W histories must never abort; class-V histories (well-formed in every state, roles invert across states) may abort only with a stale-edge signature that is listed as a known finding; unexplained aborts, internal errors and ordering failures are violations.", E1_NOTE, "5/C20"),
   "C05": ("e1", "deterministic simulation: injected hidden reads / writes (class X) with online monitors on the ledger of latest executions",
@@ -56,7 +56,7 @@ CHECKS = {
           "Seeded histories of one path through absent / file / directory states with explicit mtimes; the three stamp routes of the three checkers must agree, remembered stamps must check inconsistent exactly when the documented aspect differs, readers stay fresh, writes create / truncate / refuse directories. Evidence over sampled histories on this machine's filesystem.",
           "Real kernel filesystem (tmpfs or temp dir); the clock is removed by setting every mtime explicitly; directory iteration order is the kernel's.", "5/C13"),
   "C14": ("e4", "seeded operation histories over the map resource and typed resource state in one Pie vs a map-of-maps model",
-          "After every operation the returned value and the complete observable state of every resource type must equal the model; equality-checker verdicts for remembered stamps must match; three stamp routes agree.",
+          "After every operation (including a task whose write function panics before / after storing, or that panics after the write, with the Pie used further) the returned value and the complete observable state of every resource type must equal the model; equality-checker verdicts for remembered stamps must match; three stamp routes agree.",
           "Trusts the map-of-maps model; three key types, two further resource types, three state types.", "5/C14"),
   "C15": ("e1", "deterministic simulation over type families with identical representation, hash and Debug text (incl. Box/Rc wrappers of one task type) + direct trait-object equality probes",
           "Programs mix seven task families and two resource families with coinciding ids; equal keys must share one node and one execution, different types must never share an output, a dependency or a node (from-scratch outputs, store dump), and trait-object equality must agree with (type, value) for all key pairs.", E1_NOTE, "5/C15"),
